@@ -7,6 +7,7 @@ import (
 	"fmt"
 	"math/rand"
 	"net"
+	"net/textproto"
 	"net/url"
 	"os"
 	"path/filepath"
@@ -448,6 +449,13 @@ func c07Wire(c *ctx, which string) {
 		// spellings that are not in canonical MIME header form; an HSTS max-age of 100 years (the option is an int, the value does not fit 32 bits)
 		{Name: "C", ClientIP: "x-custom", TLSHeader: "X-SSL", TLSValue: "1", STSMaxAge: 3153600000},
 	}
+	if which == "c08" {
+		// the client-IP header named like one of the headers fabio manages anyway
+		cfgs = append(cfgs, c07HdrCfg{Name: "E", ClientIP: "X-Real-Ip", TLSHeader: "X-Tls", TLSValue: "yes"})
+		if c.thorough() {
+			cfgs = append(cfgs, c07HdrCfg{Name: "F", ClientIP: "x-forwarded-for"}, c07HdrCfg{Name: "G", ClientIP: "X-Real-IP"})
+		}
+	}
 	if c.thorough() {
 		cfgs = append(cfgs, c07HdrCfg{Name: "B", STSMaxAge: 600}, c07HdrCfg{Name: "D", TLSHeader: "x-forwarded-SSL", TLSValue: "on", ClientIP: "X-CLIENT-ADDR"})
 	}
@@ -732,7 +740,10 @@ func c07One(c *ctx, which string, rg *c07Rig, q *c07Req, unrouted *atomic.Int64)
 		if forgedAny || isTLS || hostRoute || q.Route <= -2 {
 			c.R.Nontrivial(q.ID)
 		}
-		if rg.hc.ClientIP != "" {
+		// the configured client-IP header is overwritten, whatever its name and spelling; named X-Forwarded-For it is the
+		// list below that carries the address
+		cipName := textproto.CanonicalMIMEHeaderKey(rg.hc.ClientIP)
+		if rg.hc.ClientIP != "" && cipName != "X-Forwarded-For" {
 			if g := got.Get(rg.hc.ClientIP); len(g) != 1 || g[0] != peer {
 				viol("c08", "client-ip-header", fmt.Sprintf("%s is %q, the peer address is %s (client sent %q)", rg.hc.ClientIP, g, peer, q.sent(rg.hc.ClientIP)))
 			}
@@ -759,7 +770,9 @@ func c07One(c *ctx, which string, rg *c07Rig, q *c07Req, unrouted *atomic.Int64)
 		} else if strings.Join(xff[:len(xff)-1], ",") != strings.Join(sentXFF, ",") {
 			viol("c08", "xff-prefix", fmt.Sprintf("X-Forwarded-For is %q, client sent %q", xff, sentXFF))
 		}
-		if sent := q.sent("X-Real-Ip"); len(sent) == 0 {
+		if cipName == "X-Real-Ip" {
+			// the operator made it the client-IP header: decided above
+		} else if sent := q.sent("X-Real-Ip"); len(sent) == 0 {
 			if g := got.Get("X-Real-Ip"); len(g) != 1 || g[0] != peer {
 				viol("c08", "x-real-ip", fmt.Sprintf("X-Real-Ip is %q, peer is %s", g, peer))
 			}
